@@ -195,7 +195,7 @@ func (e *Exec) redirect(fn *ssa.Function) *ssa.Function {
 	if !ok || fn.Pkg == nil {
 		return nil
 	}
-	if e.realDial && strings.HasSuffix(fnName(fn), "knxnet.DialTunnelUDP") || e.realDial && strings.HasSuffix(fnName(fn), "knxnet.DialTunnelTCP") {
+	if e.realDial && (strings.HasSuffix(fnName(fn), "knxnet.DialTunnelUDP") || strings.HasSuffix(fnName(fn), "knxnet.DialTunnelTCP") || strings.HasSuffix(fnName(fn), "knxnet.HostInfoFromAddress")) {
 		return nil
 	}
 	if i := strings.LastIndex(to, "."); i >= 0 {
